@@ -96,9 +96,9 @@ class QuantLog:
         log = self.calls
         orig = self.orig
 
-        def spy(fmt, x):
+        def spy(fmt, x, *a, **k):
             log.append((fmt.exponent_bits, fmt.mantissa_bits, fmt.rounding, fmt.srbits, tuple(x.shape)))
-            return orig(fmt, x)
+            return orig(fmt, x, *a, **k)
 
         FPFormat.quantise = spy
         return self
